@@ -18,6 +18,7 @@ from pyvc.values import *  # noqa
 
 PROP = "C11"
 ASSUME = ["K1: the stock Keras layer computes op(x, kernel; hyper-parameters) + bias then activation",
+          "K1': for the relationally checked layers (QConv2DTranspose, QSeparableConv1D) the quantizer-free body is the stock computation; quantizers commute with expand_dims",
           "structural equality of operator terms (a refactoring to a different but equivalent backend API would need a new operator synonym)"]
 
 
@@ -145,6 +146,79 @@ def spec_simplernn(q, a, p):
   return (out, [out])
 
 
+def relational(cls_path, weights, extra_attrs=None, call_args=None, bias_flag="use_bias"):
+  """call(weights w, quantizers present) == call(weights q(w), no quantizers): the layer with quantizers computes what
+  the same layer computes on pre-quantized weights (the quantizer-free body is the stock Keras computation, K1')."""
+  def make(pattern):
+    def scenario(ip):
+      s = Scen()
+      cls = ip.find(cls_path)
+
+      def build(with_q):
+        attrs = {}
+        for (wname, qname), present in zip(weights, pattern["q"]):
+          w = Term(wname)
+          if with_q:
+            attrs[wname] = w
+            attrs[qname] = "set" if present else None
+            attrs[qname + "_internal"] = qfun(qname) if present else None
+          else:
+            attrs[wname] = Term(qname, (w,)) if present else w
+            attrs[qname] = None
+            attrs[qname + "_internal"] = None
+        if bias_flag:
+          attrs[bias_flag] = pattern["use_bias"]
+        if not pattern["use_bias"]:
+          attrs["bias"] = None
+        attrs["activation"] = qfun("act") if pattern["act"] else None
+        for k, v in (extra_attrs or {}).items():
+          attrs[k] = v
+        return Obj(cls, attrs, label=cls_path.split("::")[-1])
+      res = []
+      for with_q in (True, False):
+        lay = build(with_q)
+        args = call_args(ip, with_q, pattern) if call_args else [X]
+        r = run_call(ip, ip.getattr(lay, "call"), args)
+        if r[0] != "return":
+          s.claim("no_raise", False)
+          s.info["raised"] = "%s (with_quantizers=%s)" % (r[1], with_q)
+          return s
+        res.append(r[1])
+      s.claim("no_raise", True)
+      qnames = {qn for _, qn in weights}
+
+      def commute(t):
+        """quantizers act element-wise (up to a size-1 axis): q(expand_dims(w, k)) is expand_dims(q(w), k)"""
+        if isinstance(t, Term):
+          args = tuple(commute(a) for a in t.args)
+          kw = tuple((k, commute(v)) for k, v in t.kw)
+          if t.op in qnames and len(args) == 1 and isinstance(args[0], Term) and args[0].op.endswith("expand_dims"):
+            inner = args[0]
+            return Term(inner.op, (Term(t.op, (inner.args[0],)),) + tuple(inner.args[1:]), inner.kw)
+          return Term(t.op, args, kw)
+        if isinstance(t, (list, tuple)):
+          return type(t)(commute(x) for x in t)
+        return t
+      res = [commute(r) for r in res]
+      same = res[0] == res[1] if not isinstance(res[0], (tuple, list)) else (
+          len(res[0]) == len(res[1]) and all((a == b) if not isinstance(a, list) else list(a) == list(b) for a, b in zip(res[0], res[1])))
+      if not same:
+        s.info["raised"] = "term mismatch: with quantizers %r / on pre-quantized weights %r" % (res[0], res[1])
+      s.claim("same_as_prequantized", bool(same))
+      # every weight the layer owns takes part in the result (guards the quantizer-free body that K1' trusts)
+      used = [wn for wn, _ in weights if wn != "__state__" and (wn != "bias" or pattern["use_bias"])]
+      missing = [wn for wn in used if (wn + "()") not in repr(res[0])]
+      if missing:
+        s.info["raised"] = "weights never used in the result: %s" % missing
+      s.claim("weights_all_used", not missing)
+      # the quantizers are really used: with a quantizer present the result must mention it
+      if any(pattern["q"][i] for i in range(len(weights)) if weights[i][0] != "bias" or pattern["use_bias"]):
+        s.claim("quantizer_applied", any(qn in repr(res[0]) for (wn, qn), pr in zip(weights, pattern["q"]) if pr))
+      return s
+    return scenario
+  return make
+
+
 def patterns(nq):
   for qs in itertools.product((True, False), repeat=nq):
     for ub in (True, False):
@@ -201,6 +275,45 @@ def cases(tier):
                  [("depthwise_kernel", "depthwise_quantizer"), ("pointwise_kernel", "pointwise_quantizer"),
                   ("bias", "bias_quantizer")], spec_separable2d,
                  extra_attrs=conv_attrs(["strides", "padding", "dilation_rate", "data_format"])), 3, 2)
+  # layers checked relationally (result with quantizers == result of the same body on pre-quantized weights)
+  tr_attrs = conv_attrs(["filters"])
+  tr_attrs.update({"padding": "valid", "data_format": "channels_last", "output_padding": None})
+  tr_attrs.update({"strides": (hp("s0"), hp("s1")), "dilation_rate": (hp("d0"), hp("d1")), "kernel_size": (hp("k0"), hp("k1"))})
+  add(QC + "QConv2DTranspose.call", "QConv2DTranspose",
+      relational(QC + "QConv2DTranspose", [("kernel", "kernel_quantizer"), ("bias", "bias_quantizer")], extra_attrs=tr_attrs), 2, 1)
+  sep1 = conv_attrs(["padding", "data_format"])
+  sep1.update({"strides": (hp("s0"),), "dilation_rate": (hp("d0"),)})
+  add(QC + "QSeparableConv1D.call", "QSeparableConv1D",
+      relational(QC + "QSeparableConv1D", [("depthwise_kernel", "depthwise_quantizer"), ("pointwise_kernel", "pointwise_quantizer"),
+                                           ("bias", "bias_quantizer")], extra_attrs=sep1), 3, 2)
+  # recurrent cells: kernel / recurrent kernel / bias / state quantizers (state = the incoming states)
+  def cell_args(nstates):
+    def f(ip, with_q, pattern):
+      sts = [Term("state%d" % i) for i in range(nstates)]
+      if not with_q and pattern["q"][3]:
+        sts = [Term("state_quantizer", (t,)) for t in sts]
+      return [X, sts]
+    return f
+  cell_w = [("kernel", "kernel_quantizer"), ("recurrent_kernel", "recurrent_quantizer"), ("bias", "bias_quantizer"),
+            ("__state__", "state_quantizer")]
+  for cname, nst in (("QLSTMCell", 2), ("QGRUCell", 1)):
+    for impl in (1, 2):
+      for reset_after in ((False, True) if cname == "QGRUCell" else (None,)):
+        cell_attrs = {"implementation": impl, "dropout": 0.0, "recurrent_dropout": 0.0, "units": 3,
+                      "recurrent_activation": qfun("rec_act"),
+                      "get_dropout_mask_for_cell": Builtin("dp", lambda ip_, *a, **k: None),
+                      "get_recurrent_dropout_mask_for_cell": Builtin("rdp", lambda ip_, *a, **k: None)}
+        if reset_after is not None:
+          cell_attrs["reset_after"] = reset_after
+        for p in patterns(4):
+          if not p["act"]:
+            continue                      # the cells always apply their activation
+          if not p["use_bias"] and p["q"][2]:
+            continue
+          mk = relational("qkeras/qrecurrent.py::" + cname, cell_w, extra_attrs=cell_attrs, call_args=cell_args(nst))
+          nm = "impl%d%s_%s" % (impl, "" if reset_after is None else "_ra%d" % reset_after, pname(p))
+          out.append(Case(PROP, "qkeras/qrecurrent.py::%s.call" % cname, nm, mk(p), replay_kind=None,
+                          assumptions=ASSUME, term_mode=True))
   # QScaleShift tests the *_internal attributes directly
   def scaleshift(p):
     def scenario(ip):
